@@ -106,9 +106,14 @@ def flow_check(r, trees, U0, tag, case, sigp):
                             f'inputs F({L}|D), F({R}|D) gives {sfam}({sel.theta!r})', case=case)
                 ok = False
             hl, hr = hfun(fam, e.theta, a, b), hfun(fam, e.theta, b, a)
-            F[(L, D | {R})] = hl
-            F[(R, D | {L})] = hr
             Ue = np.asarray(e.U, float)
+            # The next tree is fed with the edge's OWN stored pseudo-observations (looked up by structure labels), which are
+            # compared with the reference h-functions right below to 1e-9. Propagating the reference values instead would make
+            # the pair-copula comparison of tied (integer-valued) tables depend on 1-ulp differences between two correct
+            # h implementations, because Kendall's tau of tied data is not continuous in its inputs.
+            ok_shape = Ue.shape == (2, len(a))
+            F[(L, D | {R})] = Ue[0] if ok_shape else hl
+            F[(R, D | {L})] = Ue[1] if ok_shape else hr
             if Ue.shape != (2, len(a)) or not (np.allclose(Ue[0], hl, rtol=0, atol=1e-9) and
                                                np.allclose(Ue[1], hr, rtol=0, atol=1e-9)):
                 swapped = Ue.shape == (2, len(a)) and np.allclose(Ue[0], hr, atol=1e-9) and np.allclose(Ue[1], hl, atol=1e-9)
